@@ -260,6 +260,65 @@ func c07Check(cs c07Case) (kind, detail string) {
 				deletedParent = ""
 			}
 		}
+	case "delete-via-key":
+		// the same deletion addressed at the entry's key node
+		if len(cs.Target) == 0 || strings.HasPrefix(cs.Target[len(cs.Target)-1], "#") {
+			return "skip", ""
+		}
+		expr = "del(" + p + " | key)"
+	case "copy-into-seq-then-delete-first":
+		// two steps in one program: the target (a map entry's value) is copied to the end of a sequence elsewhere in the document,
+		// then the first element of that sequence is deleted; the target itself, its key included, is outside T
+		if len(cs.Target) == 0 || strings.HasPrefix(cs.Target[len(cs.Target)-1], "#") {
+			return "skip", ""
+		}
+		var seqPath []string
+		var find func(n *val.V, path []string)
+		find = func(n *val.V, path []string) {
+			if seqPath != nil {
+				return
+			}
+			if n.K == val.Seq && len(n.Vals) > 0 && len(path) > 0 {
+				pj, tj := "/"+strings.Join(path, "/"), "/"+strings.Join(cs.Target, "/")
+				if !strings.HasPrefix(pj+"/", tj+"/") && !strings.HasPrefix(tj+"/", pj+"/") {
+					seqPath = append([]string{}, path...)
+					return
+				}
+			}
+			for i, c := range n.Vals {
+				if n.K == val.Map {
+					find(c, append(append([]string{}, path...), n.Keys[i].S))
+				} else {
+					find(c, append(append([]string{}, path...), "#"+strconv.Itoa(i)))
+				}
+			}
+		}
+		find(v, nil)
+		if seqPath == nil {
+			return "skip", ""
+		}
+		if cs.Deco == "aliases" {
+			// the anchored scalar is the first leaf of the document: deleting the element that holds it would leave the aliases dangling
+			first := append(append([]string{}, seqPath...), "#0")
+			lp := []string{}
+			for t := v; t.K == val.Seq || t.K == val.Map; {
+				if len(t.Vals) == 0 {
+					break
+				}
+				if t.K == val.Map {
+					lp = append(lp, t.Keys[0].S)
+				} else {
+					lp = append(lp, "#0")
+				}
+				t = t.Vals[0]
+			}
+			if len(lp) >= len(first) && strings.Join(lp[:len(first)], "/") == strings.Join(first, "/") {
+				return "skip", ""
+			}
+		}
+		sp := c07PathExpr(seqPath)
+		expr = sp + " += [" + p + "] | del(" + sp + "[0])"
+		touched = []string{"/" + strings.Join(seqPath, "/")}
 	case "append":
 		// T is the appended entry only: the existing entries must stay as they are
 		switch tv.K {
@@ -390,9 +449,14 @@ func c07Check(cs c07Case) (kind, detail string) {
 	}
 	// generator code of the target: "r" + child indices; comments carry the code of the node they were written for
 	code, parentCode, lastChild := "r", "", false
+	codeTarget := cs.Target
+	if cs.Update == "copy-into-seq-then-delete-first" {
+		// T is the sequence that receives the copy and loses its first element: its subtree's comments belong to T
+		codeTarget = strings.Split(strings.TrimPrefix(touched[0], "/"), "/")
+	}
 	{
 		t := v
-		for _, sgm := range cs.Target {
+		for _, sgm := range codeTarget {
 			idx := -1
 			if strings.HasPrefix(sgm, "#") {
 				idx, _ = strconv.Atoi(sgm[1:])
@@ -409,7 +473,11 @@ func c07Check(cs c07Case) (kind, detail string) {
 			t = t.Vals[idx]
 		}
 	}
-	wholeTarget := cs.Update != "create-below" && cs.Update != "create-beside" && cs.Update != "append" && cs.Update != "copy-then-edit"
+	ukind := cs.Update
+	if ukind == "delete-via-key" {
+		ukind = "delete"
+	}
+	wholeTarget := ukind != "create-below" && ukind != "create-beside" && ukind != "append" && ukind != "copy-then-edit"
 	commentInT := func(text string) bool {
 		if !wholeTarget {
 			return false
@@ -440,7 +508,7 @@ func c07Check(cs c07Case) (kind, detail string) {
 	}
 	// containers whose own attributes may change because they receive or lose a child
 	soft := map[string]bool{}
-	switch cs.Update {
+	switch ukind {
 	case "create-below", "append":
 		soft[tpath] = true
 	case "create-beside", "delete", "copy-then-edit":
@@ -480,6 +548,9 @@ func c07Check(cs c07Case) (kind, detail string) {
 		mute := false // inside the freshly created copy: its comments are copies too and belong to T
 		cm := func(kind, text string) {
 			for _, ln := range strings.Split(strings.TrimSpace(text), "\n") {
+				if mute && ukind == "copy-into-seq-then-delete-first" {
+					continue // inside the sequence that is T
+				}
 				if mute {
 					// a comment inside the copy that was written for the copied subtree is a copy itself
 					f := strings.Fields(ln)
@@ -495,7 +566,7 @@ func c07Check(cs c07Case) (kind, detail string) {
 		}
 		var walk func(n *yaml.Node, path string)
 		node := func(n *yaml.Node, path string) {
-			if inT(path) && (isBase || cs.Update != "delete") {
+			if inT(path) && (isBase || ukind != "delete") {
 				return // after a delete the target no longer exists: the path now names its successor
 			}
 			p2 := path
@@ -520,6 +591,10 @@ func c07Check(cs c07Case) (kind, detail string) {
 			out = append(out, fmt.Sprintf("N|%s|k%d t=%s st=%d a=%q al=%q v=%q", p2, n.Kind, n.ShortTag(), n.Style, n.Anchor, alias, val))
 		}
 		walk = func(n *yaml.Node, path string) {
+			if ukind == "copy-into-seq-then-delete-first" && !isBase && inT(path) && !mute {
+				mute = true
+				defer func() { mute = false }()
+			}
 			cm("C", n.HeadComment)
 			switch n.Kind {
 			case yaml.DocumentNode:
@@ -535,7 +610,7 @@ func c07Check(cs c07Case) (kind, detail string) {
 					sub := path + "/" + k.Value
 					was := mute
 					cm("C", k.HeadComment) // stands in front of the (new) key: not part of the copy
-					if cs.Update == "copy-then-edit" && !isBase && inT(sub) {
+					if ukind == "copy-then-edit" && !isBase && inT(sub) {
 						mute = true
 					}
 					node(k, sub+"#key")
@@ -643,7 +718,7 @@ func c07Run(c *fw.Ctx) error {
 	for _, e := range []string{`{"k": [1, "a", 1], "m": {"k": "a", "m": 1}}`, `[{"k": 1, "m": "a"}, {"k": "a"}, 1]`, `{"k": {"m": [1, {"k": "a"}]}, "m": 1}`} {
 		shapes = append(shapes, fromJSONText(e))
 	}
-	kinds := []string{"scalar", "subtree", "delete", "append", "arith", "create-below", "create-beside", "copy-then-edit"}
+	kinds := []string{"scalar", "subtree", "delete", "delete-via-key", "append", "arith", "create-below", "create-beside", "copy-then-edit", "copy-into-seq-then-delete-first"}
 	var kindDecos [][2]string
 	for _, deco := range []string{"", "foots", "aliases"} {
 		for _, k := range kinds {
